@@ -34,11 +34,10 @@ RULE = (
     "documents: Hypothesis-generated buffers of 1..3 canonical LRRP documents: id from the 18 LRRP ids that have a token "
     "table, 0..12 tokens drawn from the implemented tokens of the id's group (declarative grammar in vp/refs/mbxml_ref.py: "
     "inline opaque 0..200 octets incl. 0/127/128/129, fixed 1-octet opaque, result-code attribute + opaque, uintvar (septet-"
-    "biased to 2^32-1), uint8, no-value, ufloat/sfloat with one fraction septet (both signs, zero integer part), info-time, "
+    "biased to 2^32-1), result-code attribute without data (0x37), uint8, no-value, ufloat/sfloat with one fraction septet (both signs, zero integer part), info-time, "
     "point-2d, point-3d, circle-2d); ids without constant table (table implied by the id) and ids with an inline table "
     "(standard LRRP table, random length-value entries, empty); NOT generated: CDT_LEN=1 ('same table as previous "
-    "document' - the intended wire form cannot be established offline), token 0x37 (reader/writer of the library disagree "
-    "on whether a result code follows; wire form unknown offline), tokens the library has no codec for (0x24, circle-3d, "
+    "document' - the intended wire form cannot be established offline), tokens the library has no codec for (0x24, circle-3d, "
     "point-3d with accuracy).  lookup: sequences of 0..8 LRRP.get_token calls (by id or by name, attributes by id or name, "
     "a few deliberately invalid ones that must raise ModuleNotFoundError) on a fresh document.  mutated: canonical buffers "
     "with truncation / octet substitution / insertion / length-field damage, and arbitrary octets.  Distinct by case hash; "
@@ -61,10 +60,6 @@ ASSUMPTIONS = [
 
 U_MAX, S_MAX = 2**32 - 1, 2**31 - 1
 TABLE_NAMES = ["LRRP_CONSTANT_TABLE", "COMMON_ELEMENT_TOKENS", "QUERY_REQUEST_MESSAGES_ELEMENT_TOKENS", "ANSWER_AND_REPORT_MESSAGES_ELEMENT_TOKENS", "ATTRIBUTE_TOKENS"]
-
-# tokens that exist only for the lookup sub-check (see RULE): kind 'attr_none' = uintvar attribute, no value
-LOOKUP_ONLY = {0x37: ("result", "attr_none")}
-
 
 def libs():
     from okdmr.dmrlib.motorola.lrrp import LRRP
@@ -171,23 +166,18 @@ def bounded(fn, *a, allowed=(), clause="no_unexpected_exception"):
 
 def _doc_integers(doc: dict):
     """(unsigned integers, signed integers) the library writes through write_uintvar / write_sintvar for this document"""
-    group = {**R.GROUPS[R.DOC_GROUP[doc["id"]]], **LOOKUP_ONLY}
+    group = R.GROUPS[R.DOC_GROUP[doc["id"]]]
     us, ss = [doc["id"]], []
-    body = len(R.document_bytes(doc)) if all(t[0] not in LOOKUP_ONLY for t in doc["tokens"]) else None
-    if body is not None:
-        # body length = total - id octet - length field
-        total = body
-        for n in (1, 2, 3):
-            if total - 1 - n >= 0 and len(R.uintvar(total - 1 - n)) == n:
-                us.append(total - 1 - n)
-                break
+    # body length = total - id octet - length field
+    total = len(R.document_bytes(doc))
+    for n in (1, 2, 3):
+        if total - 1 - n >= 0 and len(R.uintvar(total - 1 - n)) == n:
+            us.append(total - 1 - n)
+            break
     if doc.get("table") is not None:
         us.append(len(doc["table"]) // 2)
     for tid, v in doc["tokens"]:
         kind = group[tid][1]
-        if kind == "attr_none":
-            us.append(v)
-            continue
         us.extend(R.integers_of_value(kind, v))
         ss.extend(R.signed_integers_of_value(kind, v))
     return us, ss
@@ -222,7 +212,7 @@ def empty_opaque_blame(docs):
     M, LRRP, _, _ = libs()
     has = False
     for d in docs:
-        group = {**R.GROUPS[R.DOC_GROUP[d["id"]]], **LOOKUP_ONLY}
+        group = R.GROUPS[R.DOC_GROUP[d["id"]]]
         for tid, v in d["tokens"]:
             kind = group[tid][1]
             if (kind == "opaque" and v == "") or (kind == "attr_opaque" and v[1] == ""):
@@ -331,8 +321,10 @@ def _documents_inner(case):
                 raise Fail("token_id", {"doc": k, "token": j, "id": tok.token_id}, tid)
             if not _same_value(tok.value, py_value(kind, v)):
                 raise Fail("token_value", {"doc": k, "token": j, "value": jsonable(tok.value)}, jsonable(py_value(kind, v)), klass=kind)
-            if kind == "attr_opaque" and [a[1] for a in _explicit_attrs(tok)] != [v[0]]:
-                raise Fail("attribute_value", {"doc": k, "token": j, "attributes": _explicit_attrs(tok)}, v[0])
+            if kind in ("attr_opaque", "attr_none"):
+                want_attr = v[0] if kind == "attr_opaque" else v
+                if _explicit_attrs(tok) != [["result-code", want_attr]]:
+                    raise Fail("attribute_value", {"doc": k, "token": j, "attributes": _explicit_attrs(tok)}, [["result-code", want_attr]], klass=kind)
         if d.get("table") is not None and bytes(p.constants_table) != bytes.fromhex(d["table"]):
             raise Fail("inline_constant_table", bytes(p.constants_table).hex(), d["table"])
     for k, (p, x) in enumerate(zip(parsed, parts)):
@@ -384,7 +376,7 @@ def _lookup_build(case):
     """run the get_token calls; returns (doc, resolved) with resolved = [[token id, kind, json value, attr value|None]]"""
     M, LRRP, DocId, MBXMLToken = libs()
     did = case["doc_id"]
-    grammar = {**R.GROUPS[R.DOC_GROUP[did]], **(LOOKUP_ONLY if R.DOC_GROUP[did] == "report" else {})}
+    grammar = R.GROUPS[R.DOC_GROUP[did]]
     doctype = DocId.resolve(did)
     _, doc = call(LRRP, doctype)
     if case.get("table") is not None:
@@ -541,31 +533,19 @@ def _strategies():
 
     # ---- lookup calls
     def name_first(group_name):
-        """name -> first token id carrying it, in the library's lookup order (common, then group) incl. 0x37"""
-        order = list(R.COMMON.items()) + (list(R.REQUEST.items()) if group_name == "request" else _report_with_37())
+        """name -> first token id carrying it, in the library's lookup order (common, then group)"""
+        order = list(R.COMMON.items()) + (list(R.REQUEST.items()) if group_name == "request" else list(R.REPORT.items()))
         first = {}
         for tid, (nm, kind) in order:
             first.setdefault(nm, tid)
         return first
 
-    def _report_with_37():
-        out = []
-        for tid, v in R.REPORT.items():
-            if tid == 0x38:
-                out.append((0x37, LOOKUP_ONLY[0x37]))
-            out.append((tid, v))
-        return out
-
     RET_INFO_ATTRS = {0x50: [[], [[0x50, 0x49]], [["ret-info-accuracy", 0x49]]], 0x51: [[], [[0x51, 0x49], [0x54, 0x49]]], 0x52: [[], [[0x54, 0x49]], [["ret-info-time", 0x49]]], 0x53: [[]]}
 
     @st.composite
     def lookup_call(draw, group_name, is_request):
-        grammar = dict(R.GROUPS[group_name])
-        if group_name == "report":
-            grammar.update(LOOKUP_ONLY)
-        # 0x37 (open known finding) is kept rare so that it does not shadow the rest
-        tids = sorted(t for t in grammar if t != 0x37)
-        tid = 0x37 if (0x37 in grammar and draw(st.integers(0, 39)) == 0) else draw(st.sampled_from(tids))
+        grammar = R.GROUPS[group_name]
+        tid = draw(st.sampled_from(sorted(grammar)))
         nm, kind = grammar[tid]
         value = draw(values[kind])
         by_name = draw(st.booleans()) and name_first(group_name).get(nm) == tid
@@ -852,19 +832,7 @@ SUBCHECKS = [
 # ---------------------------------------------------------------------------------------------- known-finding predicates
 
 
-def _pred_lookup_0x37(case, fail):
-    if fail.clause in ("class_level_token_tables_unchanged", "roundtrip_blocked_by_C14_codec_defect", "zero_length_opaque_keeps_its_length_octet", "parse_terminates"):
-        return False  # other root causes are never covered by this finding
-    for c in case.get("calls", []):
-        if c.get("invalid"):
-            continue
-        if c.get("tid") == 0x37 and c.get("attrs"):
-            return True
-    return False
-
-
 PREDICATES = {
-    "lookup_token_0x37_with_result_code": _pred_lookup_0x37,
     "c14_root_cause": lambda case, fail: fail.clause == "roundtrip_blocked_by_C14_codec_defect",
     "zero_length_opaque": lambda case, fail: fail.clause == "zero_length_opaque_keeps_its_length_octet",
 }
